@@ -76,7 +76,7 @@ def is_hole(stmt, name=None):
 
 
 # ---------------------------------------------------------------- generic drivers as event automata
-from .lts import Classifier, extract, equivalent, compile_spec, seq, alt, star, lit
+from .lts import Classifier, extract, compare, compile_spec, seq, alt, star, lit
 
 
 class _DriverEvents(Classifier):
@@ -229,7 +229,10 @@ def generic_verdict(ctx, d):
     try:
         layout = fields_tuple_layout(ctx.repo)
         code = extract(d.node, _DriverEvents(d, layout))
-        diff = equivalent(code, compile_spec(_driver_spec(d.kind)))
+        cmp_ = compare(code, compile_spec(_driver_spec(d.kind)))
+        if cmp_[0] == 'foreign':
+            raise Undecided('%s does things the driver discipline does not speak about (%s): its event language cannot be compared' % (d.label, ', '.join(cmp_[1][:4])))
+        diff = cmp_[1:] if cmp_[0] == 'differs' else None
     except Undecided as e:
         res = (None, d.label, str(e))
         _GENERIC[key] = res
